@@ -15,7 +15,7 @@ use crate::{
 };
 use alloc::{sync::Arc, vec::Vec};
 
-use core::cmp::max;
+use core::{cmp::max, ops::RangeInclusive};
 
 fn total_fragments_expected(data_frag_submessage: &DataFragSubmessage) -> u32 {
     let data_size = data_frag_submessage.data_size();
@@ -175,7 +175,7 @@ impl RtpsWriterProxy {
         // Changes are only made available in order, so an irrelevant change can only be skipped
         // when every change before it has been received (or is irrelevant/lost) as well.
         // Otherwise a still missing change would silently be jumped over.
-        if a_seq_num == self.available_changes_max() + 1 {
+        if Some(a_seq_num) == self.available_changes_max().checked_add(1) {
             self.highest_received_change_sn = a_seq_num;
         }
     }
@@ -189,7 +189,10 @@ impl RtpsWriterProxy {
         // first_seq_num..end_seq_num (end excluded) without iterating over the range, whose
         // size is controlled by the remote writer: the numbers up to available_changes_max
         // have no effect and from there on every number of the range is consecutive.
-        let next_seq_num = self.available_changes_max() + 1;
+        // Nothing can follow the maximum sequence number
+        let Some(next_seq_num) = self.available_changes_max().checked_add(1) else {
+            return;
+        };
         if first_seq_num <= next_seq_num && next_seq_num < end_seq_num {
             self.highest_received_change_sn = end_seq_num - 1;
         }
@@ -214,10 +217,11 @@ impl RtpsWriterProxy {
 
         // Changes below first_available_seq_num are LOST (or RECEIVED, but in any case not MISSING) and above last_available_seq_num are unknown.
         // In between those two numbers, every change that is not RECEIVED or IRRELEVANT is MISSING
-        let first_missing_change = max(
-            self.first_available_seq_num,
-            self.highest_received_change_sn + 1,
-        );
+        // Nothing can be missing once the maximum sequence number has been received
+        let Some(next_seq_num) = self.highest_received_change_sn.checked_add(1) else {
+            return RangeInclusive::new(1, 0);
+        };
+        let first_missing_change = max(self.first_available_seq_num, next_seq_num);
         first_missing_change..=highest_number
     }
 
@@ -299,7 +303,10 @@ impl RtpsWriterProxy {
                 true,
                 reader_guid.entity_id(),
                 self.remote_writer_guid().entity_id(),
-                SequenceNumberSet::new(self.available_changes_max() + 1, missing_changes),
+                SequenceNumberSet::new(
+                    self.available_changes_max().saturating_add(1),
+                    missing_changes,
+                ),
                 self.acknack_count(),
             );
 
